@@ -676,3 +676,174 @@ func ruleHK2(c *Ctx) {
 		c.undecided("bindingsGraphChecker hook", outer.Pos(), "no closure found")
 	}
 }
+
+// ---- H4 identity methods keep no state ------------------------------------------------------------------------------------------------------
+
+func ruleH4(c *Ctx) {
+	c.Rule("H4", "computing an identity changes nothing: no UUID/PartialUUID method (nor a same-package helper it calls) stores into its receiver — values are shared between goroutines and between the caller and the store, so a lazily cached identity is a data race and hands out a slice callers can modify", 5)
+	for _, fn := range c.hashMethods() {
+		if len(fn.Params) == 0 {
+			continue
+		}
+		key := funcName(fn) + " does not write its receiver"
+		bad := ""
+		walkHelpers(fn, 2, func(inFn *ssa.Function, in ssa.Instruction, _ ssa.Instruction) {
+			var addr ssa.Value
+			switch x := in.(type) {
+			case *ssa.Store:
+				addr = x.Addr
+			case *ssa.MapUpdate:
+				addr = x.Map
+			}
+			if addr == nil {
+				return
+			}
+			if c.derivedFromParam(resolveParam(baseOfAddr(addr)), fn.Params[0], 0) {
+				bad = c.pos(in.Pos())
+			}
+		})
+		c.check(bad == "", key, fn.Pos(), "no store through the receiver", "the identity method stores into its receiver at "+bad+": concurrent callers race on the field, and a cached identity is returned by reference so that a caller can change what every later call answers")
+	}
+}
+
+// ---- S3d guarded state is touched only by its owner -------------------------------------------------------------------------------------------
+
+func ruleS3d(c *Ctx) {
+	c.Rule("S3d", "the fields a lock guards are accessed only where that lock can be held: every read or write of a guarded field of a lock-owning type (graph indexes, namespace map, memoizer caches, table rows) is in a method of that type (or a closure of one), or on an object allocated in the same function; code of another type that reaches into the fields does so under the wrong lock or none", 1)
+	n := 0
+	for _, o := range c.lockOwners() {
+		own := map[*ssa.Function]bool{}
+		for _, m := range c.methodsOf(o.named) {
+			withClosures(m, func(f *ssa.Function) { own[f] = true })
+		}
+		for _, fn := range c.srcFuncs() {
+			if own[fn] {
+				continue
+			}
+			// functions of the owner's package that take the owner as an explicit parameter are its helpers
+			top := fn
+			for top.Parent() != nil {
+				top = top.Parent()
+			}
+			helper := false
+			for _, p := range top.Params {
+				if namedOf(derefType(p.Type())) == o.named {
+					helper = true
+				}
+			}
+			for _, a := range guardedAccesses(fn, o.guarded) {
+				if fa := accessBase(a.instr); fa != nil && isFreshBase(fa) {
+					continue
+				}
+				n++
+				if helper {
+					continue // judged by S3 through its callers' lock state / tableSequentialOnly
+				}
+				c.bad(fmt.Sprintf("%s touches %s.%s", funcName(fn), o.named.Obj().Name(), a.field.Name()), a.instr.Pos(), "%s at %s %s field %s of a %s it did not create, outside the methods of %s: the lock that guards the field (%s) is not the one this code holds, so users of the object race with it or find the structure torn down", funcName(fn), c.pos(a.instr.Pos()), map[bool]string{true: "writes", false: "reads"}[a.write], a.field.Name(), o.named.Obj().Name(), o.named.Obj().Name(), o.lock.Name())
+			}
+		}
+	}
+	c.ok("guarded fields stay inside their owner", token.NoPos, "%d accesses from outside the owners' methods, all by helpers that take the owner as a parameter", n)
+}
+
+// ---- H3w a pooled value is not kept ----------------------------------------------------------------------------------------------------------------
+
+func ruleH3w(c *Ctx, rels ...string) {
+	c.Rule("H3w", "what is taken from a sync.Pool goes back and nowhere else: a value obtained from Pool.Get (or a slice, append or alias of it) is never stored into a field, map, package variable or channel nor returned — the next Get hands the same memory to someone else, who overwrites whatever kept the reference (a cached answer, a built literal)", 4)
+	n := 0
+	for _, fn := range c.srcFuncs(rels...) {
+		var seeds []ssa.Value
+		allInstrs(fn, func(in ssa.Instruction) {
+			if call, ok := in.(*ssa.Call); ok && isCallTo(&call.Call, "sync", "Get") {
+				seeds = append(seeds, call)
+			}
+		})
+		for _, seed := range seeds {
+			n++
+			key := fmt.Sprintf("%s keeps no reference to its pooled value #%d", funcName(fn), n)
+			bad := ""
+			seen := map[ssa.Value]bool{}
+			var follow func(v ssa.Value, d int)
+			follow = func(v ssa.Value, d int) {
+				if seen[v] || d > 10 || v.Referrers() == nil {
+					return
+				}
+				seen[v] = true
+				for _, r := range *v.Referrers() {
+					switch x := r.(type) {
+					case *ssa.TypeAssert, *ssa.ChangeType, *ssa.Slice, *ssa.Phi, *ssa.MakeInterface, *ssa.Extract:
+						follow(x.(ssa.Value), d+1)
+					case *ssa.Call:
+						if isBuiltinCall(&x.Call, "append") && x.Call.Args[0] == v {
+							follow(x, d+1)
+						}
+					case *ssa.Store:
+						if x.Val != v {
+							continue
+						}
+						switch a := x.Addr.(type) {
+						case *ssa.Alloc:
+							// a local variable: follow its loads (also from closures capturing it)
+							for _, lr := range *a.Referrers() {
+								if u, ok := lr.(*ssa.UnOp); ok && u.Op == token.MUL {
+									follow(u, d+1)
+								}
+							}
+						default:
+							bad = "stored at " + c.pos(x.Pos())
+						}
+					case *ssa.MapUpdate:
+						if x.Value == v {
+							bad = "stored into a map at " + c.pos(x.Pos())
+						}
+					case *ssa.Send:
+						if x.X == v {
+							bad = "sent on a channel at " + c.pos(x.Pos())
+						}
+					case *ssa.Return:
+						bad = "returned at " + c.pos(x.Pos())
+					}
+				}
+			}
+			follow(seed, 0)
+			c.check(bad == "", key, seed.Pos(), "used locally and put back", "a value taken from the pool (or a slice of it) is "+bad+" while it is also given back to the pool: the next user of the pool overwrites memory that a cache entry or a built value still points to")
+		}
+	}
+	if n < 4 {
+		c.undecided("sync.Pool Get sites", token.NoPos, "only %d found; 4 confirmed by reading (node, literal, triple, storage)", n)
+	}
+}
+
+// ---- X9 only the dispatcher looks at the previous token --------------------------------------------------------------------------------------
+
+func ruleX9(c *Ctx) {
+	c.Rule("X9", "what a piece of text is lexed as depends on the previous token only where the dispatcher says so: the lexer's lastTokenType is read in lexToken alone (time stamps after BEFORE/AFTER/BETWEEN and after comparison operators, function names after FILTER) — a state function that consults it rejects or re-classifies a token according to context, which makes grammar alternatives unreachable that the table still lists", 1)
+	a := c.lexAnchors()
+	if a == nil {
+		return
+	}
+	n := 0
+	var bad []string
+	for _, fn := range a.cursorFns {
+		allInstrs(fn, func(in ssa.Instruction) {
+			u, ok := in.(*ssa.UnOp)
+			if !ok || u.Op != token.MUL {
+				return
+			}
+			fa, ok := u.X.(*ssa.FieldAddr)
+			if !ok || fieldName(fa.X.Type(), fa.Field) != "lastTokenType" {
+				return
+			}
+			n++
+			if fnName(fn) != "lexToken" {
+				bad = append(bad, funcName(fn)+" at "+c.pos(in.Pos()))
+			}
+		})
+	}
+	sort.Strings(bad)
+	if n == 0 {
+		c.undecided("reads of lastTokenType", token.NoPos, "none found")
+		return
+	}
+	c.check(len(bad) == 0, "lastTokenType is read only by lexToken", token.NoPos, fmt.Sprintf("%d reads, all in the dispatcher", n), "the previous token's type is consulted by "+strings.Join(uniq(bad), ", ")+": the same text is lexed differently (or rejected) depending on what precedes it, outside the three documented cases")
+}
